@@ -27,6 +27,9 @@ struct Case {
     /// Some(r1): the first reservation attempt reports receipt r1 and then the connection is lost
     /// before the completion; the client repeats the reservation, which gets `receipt`
     lost_first_receipt: Option<u64>,
+    /// Some(code): the configuration is written the way users write it (JSON with the alphabetic
+    /// ISO 4217 code); `currency` is then the numeric code ISO 4217 assigns to it
+    currency_code: Option<&'static str>,
 }
 
 fn run_case(c: &Case, acc: &mut Acc) -> Vec<String> {
@@ -67,7 +70,22 @@ fn run_case(c: &Case, acc: &mut Acc) -> Vec<String> {
         let mut cfg = base_config();
         cfg.feig_config.pre_authorization_amount = c.pre as usize;
         cfg.feig_config.currency = c.currency as usize;
-        match sc.new_feig(cfg.clone()) {
+        let mut real_cfg = cfg.clone();
+        if let Some(code) = c.currency_code {
+            let txt = format!(r#"{{"currency":"{code}","pre_authorization_amount":{},"read_card_timeout":{},"password":{}}}"#, c.pre, cfg.feig_config.read_card_timeout, cfg.feig_config.password);
+            match serde_json::from_str::<zvt_feig_terminal::config::FeigConfig>(&txt) {
+                Ok(fc) => {
+                    real_cfg.feig_config = fc;
+                    acc.count("w_config_from_json", 1);
+                }
+                Err(_) => {
+                    // a code this version does not know: nothing to compare
+                    acc.count("config_code_not_accepted", 1);
+                    return vec![];
+                }
+            }
+        }
+        match sc.new_feig(real_cfg) {
             Err(e) => problems.push(e),
             Ok(mut feig) => {
                 let r0 = sc.sim.w.borrow().t.reqs.len();
@@ -141,7 +159,7 @@ fn run_case(c: &Case, acc: &mut Acc) -> Vec<String> {
 pub fn run(run: &RunInfo) -> Summary {
     let thorough = run.thorough();
     let mut cases: Vec<Case> = vec![];
-    let base = Case { pre: 2500, fin: 0, currency: 978, token: "384HH2".into(), receipt: 231, amount: Some(1295), trace: Some(975), date: Some(405), time: Some(225558), terminal_id: Some(52523535), lost_first_receipt: None };
+    let base = Case { pre: 2500, fin: 0, currency: 978, token: "384HH2".into(), receipt: 231, amount: Some(1295), trace: Some(975), date: Some(405), time: Some(225558), terminal_id: Some(52523535), lost_first_receipt: None, currency_code: None };
     // all small pairs and the boundary grid
     let mut pres: Vec<u64> = (0..=24).collect();
     pres.extend([2500, 1_000_000, 999_999_999_999]);
@@ -157,6 +175,13 @@ pub fn run(run: &RunInfo) -> Summary {
                 }
                 cases.push(Case { pre, fin, currency, ..base.clone() });
             }
+        }
+    }
+    // configurations written with the alphabetic currency code (any letter case): the requests must
+    // carry the numeric code ISO 4217 assigns to it (pinned excerpt of the standard)
+    for (code, num) in [("EUR", 978u64), ("GBP", 826), ("SEK", 752), ("eur", 978), ("Gbp", 826), ("sek", 752), ("CHF", 756), ("USD", 840), ("NOK", 578), ("DKK", 208), ("PLN", 985), ("CZK", 203)] {
+        for (pre, fin) in [(2500u64, 1295u64), (0, 0)] {
+            cases.push(Case { pre, fin, currency: num, currency_code: Some(code), ..base.clone() });
         }
     }
     // tokens and receipt numbers
@@ -195,7 +220,7 @@ pub fn run(run: &RunInfo) -> Summary {
     }
     let mut acc = par_for(cases.len(), |ix, acc| {
         let c = &cases[ix];
-        let key = format!("c08/pre={}/final={}/cur={}/token={:?}/receipt={}/lost-first={:?}/status={:?},{:?},{:?},{:?},{:?}", c.pre, c.fin, c.currency, c.token, c.receipt, c.lost_first_receipt, c.amount, c.trace, c.date, c.time, c.terminal_id);
+        let key = format!("c08/pre={}/final={}/cur={}{}/token={:?}/receipt={}/lost-first={:?}/status={:?},{:?},{:?},{:?},{:?}", c.pre, c.fin, c.currency, c.currency_code.map(|x| format!("(configured as {x:?})")).unwrap_or_default(), c.token, c.receipt, c.lost_first_receipt, c.amount, c.trace, c.date, c.time, c.terminal_id);
         if skip_for_replay(run, &key) {
             return;
         }
@@ -215,6 +240,9 @@ pub fn run(run: &RunInfo) -> Summary {
     if acc.get("w_final_above_pre") > 0 {
         acc.witness("final amount above the pre-authorisation (release must be zero)");
     }
+    if acc.get("w_config_from_json") > 0 {
+        acc.witness("a configuration written with the alphabetic currency code was used");
+    }
     if acc.get("w_final_above_i64") > 0 {
         acc.witness("final amount at and above 2^63");
     }
@@ -227,9 +255,9 @@ pub fn run(run: &RunInfo) -> Summary {
         transitions: acc.get("transitions"),
         traces_validated: execs,
         distinct_nontrivial: acc.set_len("cases"),
-        rule: "real Feig client (begin; commit) against the simulated terminal for: all pairs pre-authorisation 0..=24 x final 0..=26 and the boundary grid pre in {2500, 10^6, 10^12-1} x final in {pre-1, pre, pre+1, 2 pre, 2^32, 2^63-1, 2^63, 2^63+1, 2^63+pre, u64::MAX-10^6, u64::MAX-1, u64::MAX} x currencies {752, 826, 978}; 13 tokens (incl. empty, upper CP437 half, blanks / tabs / no-break space at either end, mixed case, leading zeros) x receipt numbers {1, 231, 9999}; reservations repeated after a lost connection with the first attempt's receipt number above, below and equal to the final one; the product of the alphabets of the five reported status fields incl. absent and leading-zero values. Requests are decoded by the reference codec and compared with the reference model; the summary with the reported values".into(),
+        rule: "real Feig client (begin; commit) against the simulated terminal for: all pairs pre-authorisation 0..=24 x final 0..=26 and the boundary grid pre in {2500, 10^6, 10^12-1} x final in {pre-1, pre, pre+1, 2 pre, 2^32, 2^63-1, 2^63, 2^63+1, 2^63+pre, u64::MAX-10^6, u64::MAX-1, u64::MAX} x currencies {752, 826, 978}; 13 tokens (incl. empty, upper CP437 half, blanks / tabs / no-break space at either end, mixed case, leading zeros) x receipt numbers {1, 231, 9999}; configurations parsed from JSON with the alphabetic ISO 4217 code in any letter case (12 spellings; codes this version does not accept are skipped) against a pinned excerpt of the standard; reservations repeated after a lost connection with the first attempt's receipt number above, below and equal to the final one; the product of the alphabets of the five reported status fields incl. absent and leading-zero values. Requests are decoded by the reference codec and compared with the reference model; the summary with the reported values".into(),
         exhaustive: true,
-        required_witnesses: vec!["final amount above the pre-authorisation (release must be zero)".into(), "final amount at and above 2^63".into()],
+        required_witnesses: vec!["final amount above the pre-authorisation (release must be zero)".into(), "final amount at and above 2^63".into(), "a configuration written with the alphabetic currency code was used".into()],
         assumptions: vec!["pre-authorisation amounts >= 10^12 do not fit the 12-digit field and are outside the domain".into(), "the textual padding of the terminal id is not fixed by the statement (compared numerically)".into()],
         bounds: json!({"cases": cases.len()}),
         caps_hit: vec![],
